@@ -78,6 +78,8 @@ def one_query(ctx, rng, built, s, witness_base, mode="c11", q=None, expected=Non
     scored = True if mode == "c12" else rng.random() < 0.6
     needs_current = rng.random() < 0.5
     level = rng.choice(["top", "segment"])
+    if type(q).__name__ == "ColumnQuery":
+        level = "segment"  # multi-segment column readers are C08's subject
     if level == "segment":
         leaves = s.leaf_searchers()
         subs, offset = leaves[rng.randrange(len(leaves))]
